@@ -342,7 +342,9 @@ func runC13(c *Ctx) {
 				c.Count("out:" + o.Kind)
 			}
 		}
+		nv := len(c.Res.Violations)
 		monitorC13(c, h)
+		c.minimise(h, nv, []StreamMonitor{monitorC13})
 		ignoredMonitor(c, h)
 		cases = append(cases, h.lcaseTerm())
 		reps = append(reps, J(map[string]interface{}{"maker": "c13", "seed": seeds[i], "cfg": h.Cfg, "auto_checkpoint": h.Auto, "initial_store": h.Initial, "ops": h.Ops, "observed": h.Outs, "around_close": h.Life, "final_store": h.Digest.Store}))
